@@ -153,7 +153,8 @@ class InterestTreeNode:
 
     def nack_interest(self, nack_reason: int) -> bool:
         for entry in self.pending_list:
-            entry.future.set_exception(types.InterestNack(nack_reason))
+            if not entry.future.done():
+                entry.future.set_exception(types.InterestNack(nack_reason))
         return True
 
     def satisfy(self, data: types.DataTuple, is_prefix: bool) -> bool:
